@@ -142,6 +142,65 @@ def run_impl(case, d, k):
     return res
 
 
+def driver_leg(out, n):
+    """Cleaning as the tool performs it: otel_to_pv(config, ingest_data=True) twice on one persistent store, first with Monday's
+    traces, then with Tuesday's (disjoint, later).  The window of the second run comes from what IT ingested, so afterwards
+    the store must hold exactly the non-dangling Tuesday traces with a span start or end inside [min+b, max-b]."""
+    import contextlib, io, yaml
+    from . import clilib as C
+    from tel2puml.otel_to_pv.config import IngestDataConfig
+    from tel2puml.otel_to_pv.otel_to_pv import otel_to_pv
+    rnd = random.Random(out.seed * 91373 + 111)
+    bad = []
+    for k in range(n):
+        buf = rnd.choice([0, 0, 1])
+        t0 = 1_700_000_000 * 10**9 + rnd.randrange(1, 10**9)
+        days, nid = [], 1
+        for day in range(2):
+            base = t0 + day * 3600 * 10**9
+            evs = []
+            for t in range(rnd.choice([2, 3, 4])):
+                n_sp = rnd.choice([1, 2, 3])
+                tr = S.gen_trace(rnd, job=100 * day + t + 1, name=1 + rnd.randrange(2), first_id=nid, n=n_sp, dangling=(rnd.random() < 0.2))
+                for e in tr:
+                    e["st"] = base + rnd.randrange(0, 10 * MIN)
+                    e["en"] = e["st"] + rnd.randrange(0, MIN)
+                nid += n_sp
+                evs += tr
+            days.append(evs)
+        with common.Scratch("c11d") as d:
+            db = d / "store.db"
+            status = []
+            for day, evs in enumerate(days):
+                dd = d / f"day{day}"
+                dd.mkdir()
+                data = C.write_dataset(dd, evs)
+                cfg = yaml.safe_load(C.write_config(dd, data, db, bs=rnd.choice([2, 1000]), buf=buf).read_text())
+                try:
+                    with contextlib.redirect_stdout(io.StringIO()), contextlib.redirect_stderr(io.StringIO()):
+                        for _name, jobs in otel_to_pv(IngestDataConfig(**cfg), ingest_data=True):
+                            for job in jobs:
+                                list(job)
+                    status.append("ok")
+                except Exception as e:  # noqa
+                    status.append("ERR:" + type(e).__name__)
+            nodes, assoc, _ = S.read_tables(str(db))
+        evs2 = days[1]
+        mn, mx = min(e["st"] for e in evs2), max(e["en"] for e in evs2)
+        lo, hi = mn + buf * MIN, mx - buf * MIN
+        if lo >= hi:
+            continue
+        ids2 = {e["id"] for e in evs2}
+        dangling = {e["job"] for e in evs2 if e["par"] is not None and e["par"] not in ids2}
+        keep = {e["job"] for e in evs2 if e["job"] not in dangling and (lo <= e["st"] <= hi or lo <= e["en"] <= hi)}
+        want = sorted(e["id"] for e in evs2 if e["job"] in keep)
+        got = sorted(e["id"] for e in nodes)
+        if status != ["ok", "ok"] or got != want:
+            bad.append(dict(kind="store after a second ingesting run differs from 'the non-dangling traces of that run inside its window'",
+                            time_buffer=buf, first_run=days[0], second_run=days[1], status=status, stored_span_ids=got, expected_span_ids=want))
+    return dict(cases=n, bad=bad)
+
+
 def oracle(case, res):
     nodes0, assoc0, _ = res["before"]
     b = case["buf"] * MIN
@@ -235,6 +294,12 @@ def run(out: common.Outcome, explore: int = 0) -> None:
         r = items[k][1]
         out.violation({"kind": "cleaning violates the property", "why": why, "case": cases[k],
                        "nodes_after": r["nodes"], "status": r["status"]})
+    import logging
+    logging.disable(logging.CRITICAL)
+    dl = driver_leg(out, 12 if out.tier == "quick" else 150)
+    for b in dl["bad"][:2]:
+        out.violation(b)
+    out.coverage["driver_leg"] = dict(two_run_stores=dl["cases"], rejected=len(dl["bad"]))
     if ok and not out.violations and (dis or coq_fail):
         out.violation({"kind": "correspondence-broken",
                        "relation": "nodes and NODE_ASSOCIATION tables after the three cleaning calls == db/assoc of V.Store.Clean.clean (window buf min max) store",
@@ -261,6 +326,10 @@ def run(out: common.Outcome, explore: int = 0) -> None:
 
 
 def replay(out: common.Outcome, rp: dict) -> None:
+    if "second_run" in rp:
+        print(rp["kind"], rp["stored_span_ids"], "expected", rp["expected_span_ids"])
+        out.coverage.update({"evaluations": 1, "distinct_nontrivial": 0, "rule": "replay", "samples": [rp["kind"]]})
+        return
     common.setup_impl_path()
     import tel2puml.events  # noqa
     with common.Scratch("c11r") as d:
